@@ -152,7 +152,7 @@ type job struct {
 func focusMatch(p Prog, focus string) bool {
 	i := strings.Index(focus, ":")
 	if i < 0 {
-		return false
+		return strings.Contains(p.ID, focus)
 	}
 	file, fn := focus[:i], focus[i+1:]
 	if j := strings.LastIndex(fn, "."); j >= 0 {
@@ -243,7 +243,7 @@ func driver(args lib.Args, focus string) {
 		for p := 0; p < nafter; p++ {
 			// quick tier: half of the programs run after interpreters that declared types, the
 			// other half after interpreters that did not (alternating with the seed); thorough: both
-			both := args.Tier == "thorough" || args.Replay != "" || focus != ""
+			both := args.Tier == "thorough" || args.Replay != "" || focus != "" || hasTag(progs[s], "generated-names") || hasTag(progs[s], "infix")
 			if both || (s+int(args.Seed))%2 == 0 {
 				jobs = append(jobs, job{"after", s, p, 1, rng.U64()})
 			}
@@ -511,4 +511,13 @@ func compareOrders(a, b []string) (onlyA, onlyB []string, same bool) {
 		}
 	}
 	return onlyA, onlyB, strings.Join(ca, "\x00") == strings.Join(cb, "\x00")
+}
+
+func hasTag(p Prog, t string) bool {
+	for _, x := range p.Tags {
+		if x == t {
+			return true
+		}
+	}
+	return false
 }
